@@ -376,8 +376,12 @@ impl State {
     // what a build may leave behind: remember it on entry
     fn build_mark(&mut self) -> (usize, usize, usize, usize) {
         if self.nested.is_empty() && self.last_error.as_ref().map_or(false, |e| e.runtime) {
-            // a program that failed at run time is not resumed by later sources
+            // a program that failed at run time is not resumed by later sources,
+            // and what it left on the run-time stacks goes with it
             self.ctx.ip = self.code_origin();
+            self.loops.truncate(self.ctx.ls_len);
+            self.return_stack.truncate(self.ctx.rs_len);
+            self.special.truncate(self.ctx.ss_ptr);
         }
         (self.nested.len(), self.input.len(), self.data_stack.len(), self.sources.len())
     }
